@@ -168,6 +168,8 @@ inductive Exc where
   | value               -- ValueError (not JSONDecodeError)
   | jsonDecode          -- json.JSONDecodeError
   | recursion           -- RecursionError
+  | validation          -- pjrpc.server.validators.ValidationError
+  | connectionRefused   -- ConnectionRefusedError
   | other (tag : String)
   deriving Repr, DecidableEq, Inhabited
 
